@@ -150,6 +150,7 @@ static void run_f2i16(uint64_t seed, long n)
 
 /* ================================================================== witness search */
 static long n_wit;
+static long case0;   /* first case index of a search run (argv[4]); a witness names its case, so `<mode> <seed> 1 <case>` replays it alone */
 static void witness(const char *suite, const char *input, const char *expected, const char *observed, const char *why)
 {
    n_wit++;
@@ -232,7 +233,7 @@ static void run_enc(uint64_t seed, long cases)
    long c, frames = 0, distinct_cfg = 0, bytes = 0;
    static opus_int16 p16[2880 * 2]; static opus_int32 p24[2880 * 2]; static float pf[2880 * 2];
    unsigned char k16[4000], k24[4000], kf[4000];
-   for (c = 0; c < cases; c++) {
+   for (c = case0; c < case0 + cases; c++) {
       vrng r; int Fs, ch, app, br, cx, vbr, cvbr, depth, fec, dtx, sig, err, f, nframes, kind, amp, fsz, i;
       OpusEncoder *e16, *e24, *ef; OpusEncoder *es[3]; double ph[2] = {0, 0.7};
       char inp[400], exp[200], obs[200];
@@ -284,7 +285,7 @@ static void run_dec(uint64_t seed, long cases)
    long c, frames = 0, samples = 0, clipped = 0, lost = 0, sat = 0;
    static float pf[2880 * 2], of[5760 * 2], tmp[5760 * 2]; static opus_int16 o16[5760 * 2]; static opus_int32 o24[5760 * 2];
    unsigned char pkt[4000];
-   for (c = 0; c < cases; c++) {
+   for (c = case0; c < case0 + cases; c++) {
       vrng r; int Fs, ch, dFs, dch, app, br, cx, vbr, cvbr, depth, fec, dtx, sig, err, f, nframes, kind, fsz, i, lossy;
       double amp; OpusEncoder *enc; OpusDecoder *d16, *d24, *df; double ph[2] = {0, 0.7}; float mem[2] = {0, 0};
       char inp[400], exp[200], obs[240];
@@ -359,7 +360,7 @@ static void run_ms(uint64_t seed, long cases)
    static opus_int16 p16[960 * 8]; static opus_int32 p24[960 * 8]; static float pf[960 * 8];
    static float of[5760 * 8], ch1[5760]; static opus_int16 o16[5760 * 8]; static opus_int32 o24[5760 * 8];
    unsigned char k16[12000], k24[12000], kf[12000];
-   for (c = 0; c < cases; c++) {
+   for (c = case0; c < case0 + cases; c++) {
       vrng r; int Fs, ch, fam, streams, coupled, err, f, nframes, kind, amp, fsz, i, k, br, cx, vbr, cvbr, depth, fec, dtx, sig;
       unsigned char mapping[8]; OpusMSEncoder *es[3]; OpusMSDecoder *d16, *d24, *df; double ph[8]; float mem[8];
       char inp[400], exp[200], obs[240];
@@ -441,11 +442,11 @@ static void run_proj(uint64_t seed, long cases)
 {
    long c, frames = 0, samples = 0, tracked = 0, saturating = 0;
    double worst = 0;
-   static float pf[960 * 16], of[2880 * 16], sf[2880 * 16], s1[2880]; static opus_int16 o16[2880 * 16], s16[2880 * 16];
+   static float pf[960 * 18], of[2880 * 18], sf[2880 * 18], s1[2880]; static opus_int16 o16[2880 * 18], s16[2880 * 18];
    static unsigned char modified[2880];
    unsigned char pkt[16000];
    static const int chans[] = {4, 4, 4, 6, 9, 11, 16, 18};
-   for (c = 0; c < cases; c++) {
+   for (c = case0; c < case0 + cases; c++) {
       vrng r; int Fs, ch, streams, coupled, K, err, f, nframes, kind, fsz, i, k, row, randmat; double amp;
       opus_int32 msize; unsigned char *mat; opus_int16 m[18 * 18]; unsigned char ident[255];
       OpusProjectionEncoder *enc; OpusProjectionDecoder *d16, *df; OpusMSDecoder *ds; double ph[18]; float mem[18];
@@ -532,9 +533,35 @@ static void run_proj(uint64_t seed, long cases)
    printf("STAT cases=%ld configs=%ld samples=%ld samples_tracked=%ld samples_saturating=%ld worst_tracking_error_lsb=%.3f witnesses=%ld\n", frames, cases, samples, tracked, saturating, worst, n_wit);
 }
 
+/* stdin: re-run recorded tie lines (`pcm in16 x`, `pcm in24 a`, `pcm inf bits`, `pcm out bits`, `pcm f2i16 x<hex>`) */
+static void run_stdin(void)
+{
+   static char line[1 << 16]; static unsigned char buf[1 << 15];
+   int arch = opus_select_arch();
+   while (fgets(line, sizeof line, stdin)) {
+      char op[32], arg[1 << 15]; long n; int i;
+      if (sscanf(line, "pcm %31s %32767s", op, arg) != 2) continue;
+      if (!strcmp(op, "in16")) tie_in16(atoi(arg));
+      else if (!strcmp(op, "in24")) tie_in24((opus_int32)strtol(arg, 0, 10));
+      else if (!strcmp(op, "inf")) tie_inf((uint32_t)strtoul(arg, 0, 10));
+      else if (!strcmp(op, "out")) tie_out((uint32_t)strtoul(arg, 0, 10));
+      else if (!strcmp(op, "f2i16") && (n = vunhex(arg, buf, sizeof buf)) >= 0 && n % 4 == 0) {
+         int cnt = (int)(n / 4); float *in = (float *)malloc(n ? n : 1); short *out = (short *)malloc(2 * (cnt ? cnt : 1));
+         memcpy(in, buf, n);
+         printf("I pcm f2i16 %s\n", arg); fflush(stdout);
+         celt_float2int16(in, out, cnt, arch);
+         printf("O n=%d ", cnt);
+         for (i = 0; i < cnt; i++) printf("%s%d", i ? "," : "", out[i]);
+         printf("\n"); free(in); free(out);
+      }
+   }
+}
+
 int main(int argc, char **argv)
 {
    vinstall_traps();
+   if (argc >= 5) case0 = atol(argv[4]);
+   if (argc >= 2 && !strcmp(argv[1], "stdin")) { run_stdin(); return 0; }
    if (argc >= 3 && !strcmp(argv[1], "conv")) run_conv(atoi(argv[2]));
    else if (argc >= 4 && !strcmp(argv[1], "in24")) run_in24(strtoull(argv[2], 0, 10), atol(argv[3]));
    else if (argc >= 4 && !strcmp(argv[1], "out")) run_out(strtoull(argv[2], 0, 10), atol(argv[3]));
@@ -543,6 +570,6 @@ int main(int argc, char **argv)
    else if (argc >= 4 && !strcmp(argv[1], "dec")) run_dec(strtoull(argv[2], 0, 10), atol(argv[3]));
    else if (argc >= 4 && !strcmp(argv[1], "ms")) run_ms(strtoull(argv[2], 0, 10), atol(argv[3]));
    else if (argc >= 4 && !strcmp(argv[1], "proj")) run_proj(strtoull(argv[2], 0, 10), atol(argv[3]));
-   else { fprintf(stderr, "usage: c13_pcm conv <level> | in24|out|f2i16|enc|dec|ms|proj <seed> <n>\n"); return 64; }
+   else { fprintf(stderr, "usage: c13_pcm conv <level> | stdin | in24|out|f2i16 <seed> <n> | enc|dec|ms|proj <seed> <n> [first-case]\n"); return 64; }
    return 0;
 }
